@@ -161,8 +161,11 @@ def _canon(r, depth=0):
             order = np.lexsort(coords[::-1]) if coords.shape[0] else np.arange(coords.shape[1])
             coords, data = coords[:, order], data[order]
         extra = tuple(int(a) for a in r.compressed_axes) if getattr(r, "compressed_axes", None) is not None else None
-        return "sparse", repr(("S", type(r).__name__, extra, tuple(int(s) for s in r.shape), r.dtype.str,
-                               _scal(r.fill_value), coords.T.tolist(), [_scal(v) for v in data]))
+        # "T:<array type, compressed axes>|" + CONTENT (shape, dtype, fill, nnz of the result as returned, stored
+        # coordinates and data after conversion to COO, nothing pruned): the parent compares both levels
+        return "sparse", "T:%s,%s|" % (type(r).__name__, extra) + repr(
+            ("S", tuple(int(s) for s in r.shape), r.dtype.str, _scal(r.fill_value), int(r.nnz),
+             coords.T.tolist(), [_scal(v) for v in data]))
     if isinstance(r, np.ndarray):
         return "ndarray", repr(("A", r.shape, r.dtype.str, [_scal(v) for v in r.ravel()]))
     if r is None:
@@ -176,6 +179,12 @@ def _canon(r, depth=0):
     if isinstance(r, np.dtype):
         return "scalar", "dtype:" + r.str
     return "scalar", "obj:" + type(r).__name__
+
+
+def content_of(can):
+    """canonical string without the array-type markers"""
+    import re
+    return re.sub(r"T:[A-Za-z0-9_]*,[^|]*\|", "", can)
 
 
 def _contains(r, pred, depth=0):
@@ -435,6 +444,15 @@ def templates(label, sps, nptab, rng, fmt, tier):
         info = dict(nptab).get(uf[0][1])
         nin = info[3] if info and info[0] == "ufunc" else 1
         if nin == 1:
+            if label in ("isnan", "isinf", "isfinite", "isneginf", "isposinf", "sign", "abs"):
+                # values that make the predicate TRUE somewhere, FALSE on other stored elements
+                xs = _sp(rng, fmt, sh, 0, "float64")
+                flat = [float("nan"), float("inf"), -float("inf"), 0.0, 2.0, 0.0]
+                rng.shuffle(flat)
+                dense = [flat[i * sh[1]:(i + 1) * sh[1]] for i in range(sh[0])] if sh[0] * sh[1] == 6 else \
+                    [[float("nan"), 0.0, 1.0], [float("inf"), 0.0, 0.0], [0.0, -float("inf"), 3.0]][:sh[0]]
+                dense = [row[:sh[1]] + [0.0] * (sh[1] - len(row)) for row in dense]
+                V.append(([("sp", xs[1], xs[2], dense, 0, "float64")], {}, "unary_nonfinite"))
             for fill in fills:
                 V.append(([_sp(rng, fmt, sh, fill)], {}, "unary"))
             V.append(([_sp(rng, fmt, (4,), 0)], {}, "unary_1d"))
@@ -615,11 +633,11 @@ def cspell(sp):
 IMPORTS = "From Coq Require Import String.\nFrom Verif Require Import Dispatch S_dispatch C17Judge.\nOpen Scope string_scope."
 
 AGREE_CLAUSE = {1: (None, "value"), 2: ("two_algorithm_paths_disagree", "value"),
-                3: ("abstract_stub_returns_none", "value"), 4: ("namespace_function_coerces_to_coo", "value"),
+                3: (None, "value"), 4: (None, "value"),
                 5: ("unsupported_op_exception_class_differs", "value"), 6: ("spellings_reach_different_code", "value"),
                 7: (None, "representation"), 8: ("result_not_sparse_in_some_spelling", "value"),
                 9: (None, "representation"), 10: ("method_missing_on_format", "value"),
-                11: ("wrapper_accepts_argument_without_forwarding_it", "value")}
+                11: (None, "value"), 12: (None, "value")}
 
 
 def _show_call(sp, ad, kd):
@@ -682,7 +700,8 @@ def _replay(calls):
     else:
         body = "; ".join("print(%r, _r(lambda: %s))" % (_show_call(sp, ad, kd)[:60], _show_call(sp, ad, kd)) for sp, ad, kd in calls)
     return ("import numpy as np, sparse, scipy.sparse, operator, warnings; warnings.filterwarnings('ignore'); "
-            "_d=lambda r: (type(r).__name__, getattr(r,'fill_value',None), r.todense().tolist()) if hasattr(r,'todense') else r; "
+            "nan=float('nan'); inf=float('inf'); "
+            "_d=lambda r: (type(r).__name__, 'fill', getattr(r,'fill_value',None), 'nnz', r.nnz, r.todense().tolist()) if hasattr(r,'todense') else r; "
             "\ndef _r(f):\n    try: return _d(f())\n    except Exception as e: return type(e).__name__\n" + pre + body)
 
 
@@ -917,13 +936,14 @@ def campaign(build, tier, seed, report, budget=1):
             kind = "hang" if r.get("hang") else "otherexc"
             outs = [(kind, "harness:" + json.dumps(r)[:80])] * len(calls)
             r["out"] = outs
-        ids = {}
+        ids, cids = {}, {}
         obs = []
         for (sp, _a, _k), (kind, can) in zip(calls, outs, strict=True):
             i = ids.setdefault(can, len(ids))
-            obs.append(vpair(cspell(sp), vZ(i), vZ(K.get(kind, 19))))
+            j = cids.setdefault(content_of(can), len(cids))
+            obs.append(vpair(cspell(sp), vpair(vZ(i), vZ(j)), vZ(K.get(kind, 19))))
         lits.append(vpair(q(CLS_OF[fmt[0]]), q(label), vbool(unary), "[" + "; ".join(obs) + "]"))
-        t = f"{CLS_OF[fmt[0]]}/{'agree' if len(ids) == 1 else 'differ'}/{tag.split('_')[0]}"
+        t = f"{CLS_OF[fmt[0]]}/{'agree' if len(ids) == 1 else 'type_differs' if len(cids) == 1 else 'differ'}/{tag.split('_')[0]}"
         tags[t] = tags.get(t, 0) + 1
     t0 = time.time()
     bad = build.judge("c17_agree", IMPORTS, "agree_case", "judge_agree", lits)
